@@ -181,16 +181,29 @@ structure OrmValInv (cfg : Cfg) (s : State) : Prop where
 
 def LiveTarget (s : State) (h : Hnd) : Prop := ∀ o, s.objs h = some o → o.obsolete = false
 
+def FreshOk (s : State) : Option (Cls × Id) → Prop
+  | none => True
+  | some ki => ∀ h' o', s.objs h' = some o' → o'.obsolete = false → ¬ (o'.cls = ki.1 ∧ o'.id = ki.2)
+
+/-- side conditions of the dependents loop of `destroySelf` of row (T, r): the library builds an instance
+    only for a referencing row nobody holds (C04), held referencing instances are live -/
+def LibRefSteps (cfg : Cfg) (T : Cls) (r : Id) : State → List RefStep → Prop
+  | _, [] => True
+  | s, .sel k :: rest => LibRefSteps cfg T r (logStmt s (.selectRefs k T r)) rest
+  | s, .row hr fresh :: rest =>
+    FreshOk s fresh ∧ LiveTarget s hr ∧ LibRefSteps cfg T r (opRefRow cfg s T r hr fresh).1 rest
+
 /-- side conditions under which an operation counts as "a write through the library":
     no raw SQL; the library builds a new instance only for a row nobody holds (C04, identity map);
     the application does not write through destroyed instances. -/
-def LibStep (s : State) : Op → Prop
+def LibStep (cfg : Cfg) (s : State) : Op → Prop
   | .fetch _ cls id _ => ∀ h' o', s.objs h' = some o' → o'.obsolete = false → ¬ (o'.cls = cls ∧ o'.id = id)
   | .setattr h _ _ _ => LiveTarget s h
   | .set h _ _ => LiveTarget s h
   | .syncUpdate h _ => LiveTarget s h
   | .sync h _ => LiveTarget s h
-  | .destroy h => LiveTarget s h
+  | .destroy h refs => ∀ o, s.objs h = some o →
+      LibRefSteps cfg o.cls o.id s refs ∧ LiveTarget (opRefSteps cfg s o.cls o.id refs).1 h
   | .pickle h _ => LiveTarget s h
   | .oobUpdate .. => False
   | .oobDelete .. => False
@@ -471,6 +484,53 @@ theorem flag_read (cfg : Cfg) (s : State) (h : Hnd) (c : Col) (hf : AllFlag cfg 
         · exact hf
         · split <;> exact allFlag_congr _ _ _ hf rfl
 
+theorem flag_refRow (cfg : Cfg) (s : State) (T : Cls) (r : Id) (hr : Hnd) (fresh : Option (Cls × Id))
+    (hf : AllFlag cfg s) : AllFlag cfg (opRefRow cfg s T r hr fresh).1 := by
+  unfold opRefRow
+  have h1 : AllFlag cfg (refGet cfg s hr fresh).1 := by
+    cases fresh with
+    | none => exact flag_refresh _ _ _ hf
+    | some ki => exact flag_fetch _ _ _ _ _ _ hf
+  generalize (refGet cfg s hr fresh) = r1 at h1 ⊢
+  dsimp only
+  split
+  · exact h1
+  · split
+    · exact h1
+    · split
+      · exact h1
+      · split
+        · exact h1
+        · split
+          · exact flag_destroy _ _ _ h1
+          · have h2 := flag_read cfg r1.1 hr 0 h1
+            split
+            · exact flag_set _ _ _ _ _ h2
+            · exact h2
+
+theorem flag_refSteps (cfg : Cfg) (s : State) (T : Cls) (r : Id) (refs : List RefStep) (hf : AllFlag cfg s) :
+    AllFlag cfg (opRefSteps cfg s T r refs).1 := by
+  induction refs generalizing s with
+  | nil => exact hf
+  | cons a rest ih =>
+    cases a with
+    | sel k => exact ih _ (allFlag_congr _ _ _ hf rfl)
+    | row hr fresh =>
+      simp only [opRefSteps]
+      split
+      · exact ih _ (flag_refRow _ _ _ _ _ _ hf)
+      · exact flag_refRow _ _ _ _ _ _ hf
+
+theorem flag_destroyRefs (cfg : Cfg) (s : State) (h : Hnd) (refs : List RefStep) (hf : AllFlag cfg s) :
+    AllFlag cfg (opDestroyRefs cfg s h refs).1 := by
+  unfold opDestroyRefs
+  split
+  · exact hf
+  · dsimp only
+    split
+    · exact flag_destroy _ _ _ (flag_refSteps _ _ _ _ _ hf)
+    · exact flag_refSteps _ _ _ _ _ hf
+
 /-- the flag discipline is preserved by EVERY operation, raw SQL included -/
 theorem flag_step (cfg : Cfg) (s : State) (op : Op) (hf : AllFlag cfg s) : AllFlag cfg (step cfg s op).1 := by
   cases op with
@@ -486,7 +546,7 @@ theorem flag_step (cfg : Cfg) (s : State) (op : Op) (hf : AllFlag cfg s) : AllFl
   | expire h => exact flag_expire _ _ _ hf
   | expireAll => exact flag_expireAll _ _ _ hf
   | expireAllCls cls => exact flag_expireAll _ _ _ hf
-  | destroy h => exact flag_destroy _ _ _ hf
+  | destroy h refs => exact flag_destroyRefs _ _ _ _ hf
   | pickle h fail => exact flag_pickle _ _ _ _ hf
   | drop h => exact flag_drop _ _ _ hf
   | oobUpdate cls id c v => exact allFlag_congr _ _ _ hf rfl
@@ -1026,8 +1086,101 @@ theorem inv_fetch (cfg : Cfg) (s : State) (h : Hnd) (cls : Cls) (id : Id) (v : B
         have : (register (fetchLog s v cls id) h (freshInst cfg cls id row)).db = s.db := by simp [register, fetchLog_db]
         rw [this]; exact valOK_fresh cfg _ _ _ _ hrow
 
+theorem live_refresh (cfg : Cfg) (s : State) (hr : Hnd) (hl : LiveTarget s hr) :
+    LiveTarget (opRefresh cfg s hr).1 hr := by
+  unfold opRefresh
+  split
+  · exact hl
+  · rename_i o ho
+    split
+    · exact hl
+    · split
+      · exact hl
+      · intro o' ho'; simp [setObj] at ho'; subst ho'; exact hl o ho
+
+theorem live_fetch (cfg : Cfg) (s : State) (hr : Hnd) (k : Cls) (i : Id) (v : Bool) (hl : LiveTarget s hr) :
+    LiveTarget (opFetch cfg s hr k i v).1 hr := by
+  unfold opFetch
+  split
+  · exact hl
+  · dsimp only
+    split
+    · intro o' ho'; rw [fetchLog_objs] at ho'; exact hl o' ho'
+    · intro o' ho'; simp [register] at ho'; subst ho'; rfl
+
+theorem live_read (cfg : Cfg) (s : State) (hr : Hnd) (c : Col) (hl : LiveTarget s hr) :
+    LiveTarget (opRead cfg s hr c).1 hr := by
+  unfold opRead
+  split
+  · exact hl
+  · rename_i o ho
+    split
+    · exact hl
+    · split
+      · split
+        · exact hl
+        · split <;> (intro o' ho'; simp [setObj] at ho'; subst ho'; exact hl o ho)
+      · split
+        · exact hl
+        · split <;> (intro o' ho'; exact hl o' (by simpa [logStmt] using ho'))
+
+theorem inv_refRow (cfg : Cfg) (s : State) (T : Cls) (r : Id) (hr : Hnd) (fresh : Option (Cls × Id))
+    (hinv : OrmValInv cfg s) (hfresh : FreshOk s fresh) (hlive : LiveTarget s hr) :
+    OrmValInv cfg (opRefRow cfg s T r hr fresh).1 := by
+  unfold opRefRow
+  have h1 : OrmValInv cfg (refGet cfg s hr fresh).1 ∧
+      LiveTarget (refGet cfg s hr fresh).1 hr := by
+    cases fresh with
+    | none => exact ⟨inv_refresh _ _ _ hinv, live_refresh _ _ _ hlive⟩
+    | some ki => exact ⟨inv_fetch _ _ _ _ _ _ hinv hfresh, live_fetch _ _ _ _ _ _ hlive⟩
+  generalize (refGet cfg s hr fresh) = r1 at h1 ⊢
+  obtain ⟨h1, hl1⟩ := h1
+  dsimp only
+  split
+  · exact h1
+  · split
+    · exact h1
+    · split
+      · exact h1
+      · split
+        · exact h1
+        · split
+          · exact inv_destroy _ _ _ h1 hl1
+          · have h2 := inv_read cfg r1.1 hr 0 h1
+            have hl2 := live_read cfg r1.1 hr 0 hl1
+            split
+            · exact inv_set _ _ _ _ _ h2 hl2
+            · exact h2
+
+theorem inv_refSteps (cfg : Cfg) (s : State) (T : Cls) (r : Id) (refs : List RefStep)
+    (hinv : OrmValInv cfg s) (hlib : LibRefSteps cfg T r s refs) :
+    OrmValInv cfg (opRefSteps cfg s T r refs).1 := by
+  induction refs generalizing s with
+  | nil => exact hinv
+  | cons a rest ih =>
+    cases a with
+    | sel k => exact ih _ (inv_congr _ _ _ hinv rfl rfl) hlib
+    | row hr fresh =>
+      obtain ⟨hf, hl, hrest⟩ := hlib
+      simp only [opRefSteps]
+      split
+      · exact ih _ (inv_refRow _ _ _ _ _ _ hinv hf hl) hrest
+      · exact inv_refRow _ _ _ _ _ _ hinv hf hl
+
+theorem inv_destroyRefs (cfg : Cfg) (s : State) (h : Hnd) (refs : List RefStep) (hinv : OrmValInv cfg s)
+    (hlib : LibStep cfg s (.destroy h refs)) : OrmValInv cfg (opDestroyRefs cfg s h refs).1 := by
+  unfold opDestroyRefs
+  split
+  · exact hinv
+  · rename_i o ho
+    obtain ⟨h1, h2⟩ := hlib o ho
+    dsimp only
+    split
+    · exact inv_destroy _ _ _ (inv_refSteps _ _ _ _ _ hinv h1) h2
+    · exact inv_refSteps _ _ _ _ _ hinv h1
+
 /-- **the refinement invariant is preserved by every library operation** -/
-theorem inv_step (cfg : Cfg) (s : State) (op : Op) (hinv : OrmValInv cfg s) (hlib : LibStep s op) :
+theorem inv_step (cfg : Cfg) (s : State) (op : Op) (hinv : OrmValInv cfg s) (hlib : LibStep cfg s op) :
     OrmValInv cfg (step cfg s op).1 := by
   cases op with
   | create h cls id kvs => exact inv_create _ _ _ _ _ _ hinv
@@ -1042,7 +1195,7 @@ theorem inv_step (cfg : Cfg) (s : State) (op : Op) (hinv : OrmValInv cfg s) (hli
   | expire h => exact inv_expire _ _ _ hinv
   | expireAll => exact inv_expireAll _ _ _ hinv
   | expireAllCls cls => exact inv_expireAll _ _ _ hinv
-  | destroy h => exact inv_destroy _ _ _ hinv hlib
+  | destroy h refs => exact inv_destroyRefs _ _ _ _ hinv hlib
   | pickle h fail => exact inv_pickle _ _ _ _ hinv hlib
   | drop h => exact inv_drop _ _ _ hinv
   | oobUpdate cls id c v => exact absurd hlib (by simp [LibStep])
@@ -1063,7 +1216,7 @@ def Hist (P : State → Op → Prop) (cfg : Cfg) : State → List Op → Prop
 /-- states reachable from the empty database by library operations -/
 inductive LibReach (cfg : Cfg) : State → Prop
   | init : LibReach cfg init
-  | step (s : State) (op : Op) : LibReach cfg s → LibStep s op → LibReach cfg (step cfg s op).1
+  | step (s : State) (op : Op) : LibReach cfg s → LibStep cfg s op → LibReach cfg (step cfg s op).1
 
 /-- states reachable by ANY operations (raw SQL, writes through dead objects, duplicate instances, …) -/
 inductive AnyReach (cfg : Cfg) : State → Prop
@@ -1075,7 +1228,7 @@ theorem run_append (cfg : Cfg) (s : State) (a b : List Op) : run cfg s (a ++ b) 
   | nil => rfl
   | cons op r ih => simp [run, ih]
 
-theorem libReach_run (cfg : Cfg) (s : State) (ops : List Op) (hs : LibReach cfg s) (hh : Hist LibStep cfg s ops) :
+theorem libReach_run (cfg : Cfg) (s : State) (ops : List Op) (hs : LibReach cfg s) (hh : Hist (LibStep cfg) cfg s ops) :
     LibReach cfg (run cfg s ops) := by
   induction ops generalizing s with
   | nil => exact hs
